@@ -6,6 +6,7 @@ package core
 
 import (
 	"testing"
+	"time"
 )
 
 func rrule(when string) Map {
@@ -202,5 +203,35 @@ func TestFixedResolveServiceEmptyURLList(t *testing.T) {
 	got, err := loc.ResolveService(ctx, "svc")
 	if err != nil || got != "svc" {
 		t.Fatalf("got %q, %v", got, err)
+	}
+}
+
+// D42 (repaired): a breaker polled more often than one tick of its window never slid its window (slide() moved 'updated'
+// forward on every call, discarding the elapsed fraction), so it stayed open for as long as it was polled.
+func TestFixedD42BreakerReopensWhilePolled(t *testing.T) {
+	b, err := NewOutboundBreaker(2, 200*time.Millisecond) // 20 ticks of 10ms
+	if err != nil {
+		t.Fatal(err)
+	}
+	for i := 0; i < 2; i++ {
+		if !b.Zap() {
+			t.Fatalf("call %d refused below the limit", i)
+		}
+	}
+	if b.Zap() {
+		t.Fatalf("third call admitted: limit not enforced")
+	}
+	// poll every millisecond (ten polls per tick) for three windows
+	admitted := false
+	deadline := time.Now().Add(600 * time.Millisecond)
+	for time.Now().Before(deadline) {
+		if b.Zap() {
+			admitted = true
+			break
+		}
+		time.Sleep(time.Millisecond)
+	}
+	if !admitted {
+		t.Fatalf("the breaker never reopened while it was polled (D42)")
 	}
 }
